@@ -2,6 +2,8 @@ package gosym
 
 import (
 	"math"
+	"strconv"
+	"time"
 )
 
 // Pure math functions are evaluated natively on concrete arguments.
@@ -55,5 +57,64 @@ func init() {
 	}
 	intrinsics["math.Float64frombits"] = func(fr *frame, args []value) (value, bool) {
 		return math.Float64frombits(asUint64(args[0])), true
+	}
+}
+
+// strconv / time parsers on concrete strings are evaluated natively.
+func init() {
+	intrinsics["strconv.ParseInt"] = func(fr *frame, a []value) (value, bool) {
+		s, ok := a[0].(string)
+		if !ok {
+			s = fr.m.concretizeStr(a[0])
+		}
+		n, err := strconv.ParseInt(s, int(asInt64(a[1])), int(asInt64(a[2])))
+		if err != nil {
+			return tuple{n, fr.m.errIface(err.Error())}, true
+		}
+		return tuple{n, iface{}}, true
+	}
+	intrinsics["strconv.Atoi"] = func(fr *frame, a []value) (value, bool) {
+		s, ok := a[0].(string)
+		if !ok {
+			s = fr.m.concretizeStr(a[0])
+		}
+		n, err := strconv.Atoi(s)
+		if err != nil {
+			return tuple{n, fr.m.errIface(err.Error())}, true
+		}
+		return tuple{n, iface{}}, true
+	}
+	intrinsics["strconv.ParseBool"] = func(fr *frame, a []value) (value, bool) {
+		s, ok := a[0].(string)
+		if !ok {
+			s = fr.m.concretizeStr(a[0])
+		}
+		b, err := strconv.ParseBool(s)
+		if err != nil {
+			return tuple{b, fr.m.errIface(err.Error())}, true
+		}
+		return tuple{b, iface{}}, true
+	}
+	intrinsics["strconv.ParseFloat"] = func(fr *frame, a []value) (value, bool) {
+		s, ok := a[0].(string)
+		if !ok {
+			s = fr.m.concretizeStr(a[0])
+		}
+		f, err := strconv.ParseFloat(s, int(asInt64(a[1])))
+		if err != nil {
+			return tuple{f, fr.m.errIface(err.Error())}, true
+		}
+		return tuple{f, iface{}}, true
+	}
+	intrinsics["time.ParseDuration"] = func(fr *frame, a []value) (value, bool) {
+		s, ok := a[0].(string)
+		if !ok {
+			s = fr.m.concretizeStr(a[0])
+		}
+		d, err := time.ParseDuration(s)
+		if err != nil {
+			return tuple{int64(d), fr.m.errIface(err.Error())}, true
+		}
+		return tuple{int64(d), iface{}}, true
 	}
 }
